@@ -7,7 +7,9 @@ EXPLANATION = (
     'last-N and of a peer\'s prove state; (r2) in SendLastStateProofProcess::execute the call of commit_prove_state is '
     'reachable only in worlds where each of the listed checks ran and returned its accepting outcome (path-sensitive '
     'typestate over the guard result); (r3) each check function returns success only after its own primitive checks '
-    'accepted; (r4) no call that is not behind all unconditional guards can reach a trusted-state writer.')
+    'accepted; (r4) no call that is not behind all unconditional guards can reach a trusted-state writer; (r5) read side: no RPC method or '
+    'StorageWithChainData provider reaches a reader of a peer\'s announced last state or outstanding request, and '
+    'find_header_in_proved_state reads only the prove state.')
 NOT_DECIDED = ('Value clauses: that check_if_response_is_matched computes the right section boundaries, that sampled '
                'difficulties match, any arithmetic inside the checks, and the MMR/PoW libraries themselves.')
 
@@ -154,6 +156,23 @@ def run(ctx):
     for key in ('LightClientProtocol::process_last_state', 'LightClientProtocol::get_last_state_proof'):
         for bid, t in P.call_sites(F, key):
             ctx.guard('C01.r4', F, 'ProveRequest::is_same_as', 'false', [(bid, t.span, key)], unconditional=True)
+
+    # ---- r5 read side: what is SERVED as trusted comes from proved state or the store ---------------
+    # A peer's announced (unproved) last state lives in PeerState.last_state; only the sync state machine may read it.
+    ctx.only_callers('C01.r5', 'PeerState::get_last_state',
+                     {'LightClientProtocol::get_last_state_proof', 'Peers::get_peers_which_have_timeout', 'SendLastStateProcess::execute'}, 3)
+    unproved = {'PeerState::get_last_state', 'LastState::header', 'LastState::total_difficulty', 'PeerState::get_prove_request', 'ProveRequest::get_last_header'}
+    servers = [b.name for b in P.bodies if b.file and b.file.endswith('src/service.rs') and '{closure' not in b.name and ' as ' in b.name and 'Rpc>' in b.name]
+    servers += [b.name for b in P.bodies if '{closure' not in b.name and b.name.startswith('<StorageWithChainData as ')]
+    ctx.floor('C01.r5', 'RPC methods and StorageWithChainData providers', len(servers), 20)
+    # one reviewed exception: NetRpc::get_peers reports per-peer sync diagnostics, explicitly labelled `requested_best_known_header`
+    diagnostics = {'<NetRpcImpl as NetRpc>::get_peers': {'PeerState::get_prove_request', 'ProveRequest::get_last_header'}}
+    for sname in sorted(set(servers)):
+        hit = sorted((P.transitive_callees(sname) & unproved) - diagnostics.get(sname, set()))
+        ctx.ob('C01.r5', sname, 'serves nothing derived from a peer\'s announced (unproved) last state or outstanding request', not hit, reaches=hit)
+    FH = ctx.body('Peers::find_header_in_proved_state')
+    pcalls = sorted({k for b in [FH] + P.closures_of(FH) for _, k, _ in P.call_keys(b) if k.startswith(('PeerState::', 'LastState::', 'ProveRequest::'))})
+    ctx.ob('C01.r5', FH.name, 'peer headers served to get_header / verification come only from the prove state', pcalls == ['PeerState::get_prove_state'], peer_state_reads=pcalls)
 
 
 def meta_key_writers(P, consts):
